@@ -1043,6 +1043,12 @@ func c18_4(c *core.Ctx, p *core.Prog) {
 	}
 	fn := a.apportionFn()
 	n := 0
+	if f := pendingFieldOf(a); f != nil {
+		for _, cp := range headCopies(fn, f) {
+			n++
+			c.OK(fmt.Sprintf("tuple#%d", n), p.Pos(cp.Pos()), core.FuncName(fn), "the contributor record is a copy of the head entry: context and channel are its own")
+		}
+	}
 	core.EachInstr(fn, func(i ssa.Instruction) {
 		al, ok := i.(*ssa.Alloc)
 		if !ok {
@@ -1104,4 +1110,17 @@ func c18_4(c *core.Ctx, p *core.Prog) {
 		}
 		c.OK(key, pos, core.FuncName(fn), fmt.Sprintf("context %s and channel %s come from the same pending entry", ctxPath, chPath))
 	})
+}
+
+// pendingFieldOf returns the shard's pending-list field (a slice of entries that carry a context).
+func pendingFieldOf(a *cbpAnchors) *types.Var {
+	st := core.FlatStruct(a.shard)
+	var out *types.Var
+	for i := 0; i < st.NumFields(); i++ {
+		f := st.Field(i)
+		if sl, ok := f.Type().Underlying().(*types.Slice); ok && len(ctxFields(sl.Elem())) > 0 {
+			out = f
+		}
+	}
+	return out
 }
